@@ -361,6 +361,12 @@ async def reconcile_krm_resource(
                     return ReconcileResult(result=owner_refs, resource_id=resource_id)
 
                 converted_resource["metadata"]["ownerReferences"] = owner_refs
+            else:
+                # A merge-patch replaces lists: sending the target's own
+                # `ownerReferences` would drop the references the live object
+                # already carries (ours included). The comparison ignores
+                # this key as well, so it is only ever applied on create.
+                converted_resource["metadata"].pop("ownerReferences", None)
 
             await api_resource.patch(_prepare_for_api(converted_resource))
             return ReconcileResult(
